@@ -23,6 +23,7 @@ import Props.C10
 import Props.C08
 import Props.C07
 import Props.C12
+import Proofs.ToyPrims
 namespace AgeModel
 namespace Props.C14
 open Stream
@@ -81,6 +82,68 @@ theorem decrypt_total (P : Prims) (ids : List Identity) (file : Bytes) :
     cases r with
     | ok v => exact Or.inl ⟨v.1, v.2, c, rfl⟩
     | error e => exact Or.inr ⟨e, c, rfl⟩
+
+/-! ## Non-vacuity witnesses (toy AEAD with a 12-byte tag, chunk size 4) -/
+
+/-- evaluation helpers: a pair / triple is its first component and the (decidable) rest -/
+theorem nv_pair {α β : Type} (x : α × β) (b : β) (h : x.2 = b) : x = (x.1, b) := by
+  cases x; cases h; rfl
+theorem nv_triple {α β γ : Type} (x : α × β × γ) (b : β) (c : γ) (h1 : x.2.1 = b) (h2 : x.2.2 = c) : x = (x.1, b, c) := by
+  obtain ⟨a, b', c'⟩ := x; cases h1; cases h2; rfl
+
+/-- non-vacuity of `stream_reader_never_panics`, on hostile input: 40 bytes of garbage on a source ending in an
+    error, and a genuine three-chunk payload with a byte of the second tag flipped and two bytes appended; 60 reads of
+    3 bytes each -/
+theorem stream_reader_never_panics_nonvacuous :
+    let c₁ : Bytes := List.replicate 40 0x41
+    let c₂ : Bytes := (encrypt AEAD.toy 4 [7, 7] [1, 2, 3, 4, 5, 6, 7, 8, 9]).set 30 0xFF ++ [0, 0]
+    let sizes := List.replicate 60 3
+    0 < 4 + AEAD.toy.T ∧ (∀ s ∈ sizes, 0 < s) ∧
+    c₁.length < 2^88 ∧ (dec AEAD.toy 4 [7, 7] true 0 c₁).1.length + c₁.length + 1 < sizes.length ∧
+    c₂.length < 2^88 ∧ (dec AEAD.toy 4 [7, 7] false 0 c₂).1.length + c₂.length + 1 < sizes.length ∧
+    dec AEAD.toy 4 [7, 7] true 0 c₁ = ([], .authFail) ∧ dec AEAD.toy 4 [7, 7] false 0 c₂ = ([1, 2, 3, 4], .authFail) := by
+  decide
+
+/-- non-vacuity of `stream_writer_never_panics`, both disjuncts: (1) over a destination failing at byte offset 20, a
+    writer that has accepted `[1,2,3]` reports `dstErr` on the next Write; (2) with the counter limit set to 2, a fresh
+    writer over the perfect destination reports the counter-limit panic on a 9-byte Write -/
+theorem stream_writer_never_panics_nonvacuous :
+    let d : Dst (DstSpec.atOffset 20 true false) := { acc := [0xAA], st := false }
+    let w := ((Writer.new d).write AEAD.toy 4 (2^88) [7, 7] [1, 2, 3]).1
+    let d₂ : Dst DstSpec.perfect := { acc := [], st := () }
+    (∃ w', 0 < 4 ∧ WInv AEAD.toy 4 [7, 7] d.acc w [1, 2, 3] ∧
+      w.write AEAD.toy 4 (2^88) [7, 7] [4, 5, 6, 7, 8, 9] = (w', 0, some .dstErr)) ∧
+    (∃ w', 0 < 4 ∧ WInv AEAD.toy 4 [7, 7] d₂.acc (Writer.new d₂) [] ∧
+      (Writer.new d₂).write AEAD.toy 4 2 [7, 7] [1, 2, 3, 4, 5, 6, 7, 8, 9] = (w', 0, some (.panic 3))) := by
+  intro d w d₂
+  refine ⟨⟨(w.write AEAD.toy 4 (2^88) [7, 7] [4, 5, 6, 7, 8, 9]).1, by decide, ?_, nv_triple _ _ _ (by decide) (by decide)⟩,
+    ⟨((Writer.new d₂).write AEAD.toy 4 2 [7, 7] [1, 2, 3, 4, 5, 6, 7, 8, 9]).1, by decide, WInv_new AEAD.toy 4 [7, 7] d₂,
+      nv_triple _ _ _ (by decide) (by decide)⟩⟩
+  exact (write_ok AEAD.toy 4 (2^88) (by decide) [7, 7] d.acc (Writer.new d) w [] [1, 2, 3] 3
+    (WInv_new AEAD.toy 4 [7, 7] d) (nv_triple _ _ _ (by decide) (by decide))).1
+
+/-- non-vacuity of `stream_close_never_panics`, both disjuncts: (1) over a destination failing at byte offset 10, a
+    writer holding `[1,2,3]` reports `dstErr` on Close (the final chunk is 15 bytes); (2) with the counter limit set to
+    1, Close of a fresh writer reports the counter-limit panic -/
+theorem stream_close_never_panics_nonvacuous :
+    let d : Dst (DstSpec.atOffset 10 true false) := { acc := [0xAA], st := false }
+    let w := ((Writer.new d).write AEAD.toy 4 (2^88) [7, 7] [1, 2, 3]).1
+    let d₂ : Dst DstSpec.perfect := { acc := [], st := () }
+    (∃ w', WInv AEAD.toy 4 [7, 7] d.acc w [1, 2, 3] ∧ w.close AEAD.toy 4 (2^88) [7, 7] = (w', some .dstErr)) ∧
+    (∃ w', WInv AEAD.toy 4 [7, 7] d₂.acc (Writer.new d₂) [] ∧
+      (Writer.new d₂).close AEAD.toy 4 1 [7, 7] = (w', some (.panic 3))) := by
+  intro d w d₂
+  refine ⟨⟨(w.close AEAD.toy 4 (2^88) [7, 7]).1, ?_, nv_pair _ _ (by decide)⟩,
+    ⟨((Writer.new d₂).close AEAD.toy 4 1 [7, 7]).1, WInv_new AEAD.toy 4 [7, 7] d₂, nv_pair _ _ (by decide)⟩⟩
+  exact (write_ok AEAD.toy 4 (2^88) (by decide) [7, 7] d.acc (Writer.new d) w [] [1, 2, 3] 3
+    (WInv_new AEAD.toy 4 [7, 7] d) (nv_triple _ _ _ (by decide) (by decide))).1
+
+/-- `kdf_work_bounded` has no hypotheses; its conclusion ranges over a log that is not always empty: an scrypt
+    identity with maximum 20 facing a well-formed scrypt stanza of work factor 18 derives exactly one key -/
+theorem kdf_work_bounded_nonvacuous :
+    ((Identity.scrypt [112, 119] 20).unwrapLog Prims.toy
+      [wrapScrypt Prims.toy [112, 119] 18 (List.replicate 16 3) (List.replicate 16 9)]).2 = [18] := by
+  decide
 
 end Props.C14
 end AgeModel
